@@ -11,7 +11,7 @@ Nothing of /repo is imported or executed by Python.
 import ast
 import collections
 
-from sa.fold import Lifted, Obj, Raised, Unfoldable, module_consts  # noqa: F401
+from sa.fold import Lifted, Obj, Raised, Unfoldable, lift_module_helpers, module_consts  # noqa: F401
 
 GR = collections.namedtuple("GRange", ["chr", "start", "end"])
 _GRr = GR
@@ -94,8 +94,11 @@ class GenotypeModel:
             doc = {"neutral": {"value": 10, gene.genome: ["22", 100, 110]}, gene.name: {"e1": [7]}}
             if sc.profile_options is not None:
                 doc["options"] = dict(sc.profile_options)
-            pm.files[name] = doc
-            pm.files["aldy.resources.profiles/{}.yml".format(str(name).lower())] = doc
+            # shipped profiles are resources: the same name always holds the same document during a process
+            key = "aldy.resources.profiles/{}.yml".format(str(name).lower())
+            if pm.files.get(key, doc) != doc:
+                pm.reset_state()    # a different document under a resource name stands for a different process
+            pm.files[key] = doc
             p = pm.load(gene, name, cn_region, **kw)
             trace.append(("Profile.load", name, cn_region, dict(kw), p))
             return p
@@ -167,23 +170,9 @@ class GenotypeModel:
         env = {"json": collections.defaultdict(dict), "OUTPUT_COLS": ["c1", "c2"], "sys.stdout": Obj(name="<stdout>")}
         fn = Lifted(self.f, funcs=funcs, consts=self.consts, env=env)
         fn.funcs["genotype"] = fn
-        # module-level helpers of genotype.py are lifted too (interprocedural folding); a cache decorator is modelled as
-        # what it is: a memo table that outlives the call
-        for node in self.repo.mod("genotype").tree.body:
-            if isinstance(node, ast.FunctionDef) and node is not self.f and node.name not in fn.funcs:
-                h = Lifted(node, funcs=funcs, consts=self.consts, env=env)
-                h.funcs = fn.funcs
-                if any("cache" in ast.unparse(d) for d in node.decorator_list):
-                    memo = self.caches.setdefault(node.name, {})
-
-                    def cached(*a, _h=h, _m=memo, **k):
-                        key = repr((a, sorted(k.items())))
-                        if key not in _m:
-                            _m[key] = _h(*a, **k)
-                        return _m[key]
-                    fn.funcs[node.name] = cached
-                else:
-                    fn.funcs[node.name] = h
+        # module-level helpers of genotype.py are lifted too (interprocedural folding); a cache decorator or a module-level
+        # table is modelled as what it is: state that outlives the call
+        lift_module_helpers(self.repo.mod("genotype").tree, fn.funcs, self.consts, fn.env, self.caches, skip=(self.f.name,))
         a = dict(gene_db="g", sam_path="in.bam", profile_name="illumina")
         a.update(sc.args)
         a.update(sc.params)
